@@ -127,6 +127,7 @@ func checkC07(c *Ctx) {
 	checkC07Traces(c)
 	checkC07LongLoops(c)
 	checkC07TreeWalk(c)
+	checkC07DanglingElse(c)
 	if c.Thorough() {
 		checkLongHistories(c, []int{1000, 400000})
 	} else {
@@ -377,4 +378,130 @@ func checkC07TreeWalk(c *Ctx) {
 			c.Case("walk:"+string(jobs[i].Files[0].Data)+string(jobs[i].Prog[:40]), len(lines) > 3)
 		})
 	}
+}
+
+// Dangling else in every layout: nests of brace-less ifs with one else, the inner body ended by a newline, by
+// ";" or by nothing before "else".  A layout may be refused (syntax error); if it is accepted, the else
+// belongs to the nearest if that has none.  Conditions come from the input, so every branch is taken.
+func checkC07DanglingElse(c *Ctx) {
+	pool := c.Pool()
+	bodies := []string{`r = "then"`, `n++`, `print "then"`, `x = [1]`, `continue`, `break`, `next`, `return 1`, `{ r = "then" }`, `r = match (1) { _ => "then" }`}
+	seps := []string{"\n", "; ", ";\n", " "}
+	type one struct {
+		prog  string
+		depth int
+		kind  string
+	}
+	var progs []one
+	for depth := 2; depth <= 3; depth++ {
+		for _, b := range bodies {
+			for _, sep := range seps {
+				conds := ""
+				for d := 0; d < depth; d++ {
+					conds += fmt.Sprintf("if ($.c[%d]) ", d)
+				}
+				stmt := conds + b + sep + "else r = \"else\""
+				var prog string
+				switch b {
+				case "continue", "break":
+					prog = "{\n  r = \"none\"\n  for (q in [1]) {\n    " + stmt + "\n    r = r + \"+after\"\n  }\n  print r\n}\n"
+				case "next":
+					prog = "{\n  r = \"none\"\n  print \"start\"\n  " + stmt + "\n  print r\n}\n"
+				case "return 1":
+					prog = "function f(v) {\n  r = \"none\"\n  " + strings.ReplaceAll(stmt, "$.c", "v") + "\n  return r\n}\n{\n  print f($.c)\n}\n"
+				default:
+					prog = "{\n  r = \"none\"\n  n = 0\n  " + stmt + "\n  print r, n\n}\n"
+				}
+				progs = append(progs, one{prog, depth, b})
+			}
+		}
+	}
+	// every assignment of truth values to the conditions
+	var jobs []Job
+	var idx []int
+	inputs := map[int]string{}
+	for depth := 2; depth <= 3; depth++ {
+		var docs []string
+		for m := 0; m < 1<<depth; m++ {
+			vals := []string{}
+			for d := 0; d < depth; d++ {
+				vals = append(vals, fmt.Sprint((m>>d)&1))
+			}
+			docs = append(docs, "{\"c\":["+strings.Join(vals, ",")+"]}")
+		}
+		inputs[depth] = "[" + strings.Join(docs, ",") + "]"
+	}
+	for i, p := range progs {
+		jobs = append(jobs, Job{Kind: "run", Prog: []byte(p.prog), Files: []FileIn{{Name: "in.json", Data: []byte(inputs[p.depth])}}, Budget: 100000})
+		idx = append(idx, i)
+	}
+	refused := 0
+	pool.Map(jobs, func(j int, r Result) {
+		p := progs[idx[j]]
+		if r.Class == "syntax" {
+			refused++
+			c.Case("delse-refused:"+p.prog, false)
+			return
+		}
+		if r.Class == "budget" || r.Class == "timeout" {
+			c.Count("inconclusive", 1)
+			return
+		}
+		// the reading the statement prescribes: the else belongs to the innermost if
+		var want strings.Builder
+		for m := 0; m < 1<<p.depth; m++ {
+			outer := true
+			for d := 0; d < p.depth-1; d++ {
+				outer = outer && (m>>d)&1 == 1
+			}
+			inner := (m>>(p.depth-1))&1 == 1
+			res, n, extra := "none", 0, ""
+			taken := outer && inner
+			if outer && !inner {
+				res = "else"
+			}
+			switch p.kind {
+			case `r = "then"`, `{ r = "then" }`, `r = match (1) { _ => "then" }`:
+				if taken {
+					res = "then"
+				}
+				want.WriteString(fmt.Sprintf("%s %d\n", res, n))
+			case "n++":
+				if taken {
+					n = 1
+				}
+				want.WriteString(fmt.Sprintf("%s %d\n", res, n))
+			case `print "then"`:
+				if taken {
+					want.WriteString("then\n")
+				}
+				want.WriteString(fmt.Sprintf("%s %d\n", res, n))
+			case `x = [1]`:
+				want.WriteString(fmt.Sprintf("%s %d\n", res, n))
+			case "continue", "break":
+				if !taken {
+					extra = "+after"
+				}
+				want.WriteString(res + extra + "\n")
+			case "next":
+				want.WriteString("start\n")
+				if !taken {
+					want.WriteString(res + "\n")
+				}
+			case "return 1":
+				if taken {
+					want.WriteString("1\n")
+				} else {
+					want.WriteString(res + "\n")
+				}
+			}
+		}
+		if r.Class != "ok" || string(r.Stdout) != want.String() {
+			c.Violation("dangling-else", map[string]any{"program": p.prog, "input": inputs[p.depth], "expected_stdout": want.String(), "got_class": r.Class, "got_err": r.ErrMsg, "got_stdout": string(r.Stdout),
+				"why": "an else binds to the nearest if that has none, in every layout the parser accepts"})
+			return
+		}
+		c.Case("delse:"+p.prog, true)
+	})
+	c.Set("dangling_else_layouts_refused_as_syntax_errors", refused)
 }
